@@ -64,10 +64,12 @@ Record cfg := mkCfg {
   d_query_cache : bool;      (* Query skips the account cache (flushed, not yet committed values) *)
   d_addstate_origin : bool;  (* AddState does not load the origin value *)
   d_orphan_changer : bool;   (* Finalise replaces the changer; older account objects keep the old one *)
-  d_rb_head_dirty : bool     (* RollbackState(current height) keeps the uncommitted in-memory accounts *)
+  d_rb_head_dirty : bool;    (* RollbackState(current height) keeps the uncommitted in-memory accounts *)
+  d_getcommitted : bool;     (* GetCommittedState: nil tests inverted, zero hash for every "empty" account *)
+  d_setcode_nil : bool       (* SetCode(nil) leaves dirtyCode nil, which Code() reads as "not loaded" *)
 }.
-Definition cfg_fixed : cfg := mkCfg false false false false false false.
-Definition cfg_pinned : cfg := mkCfg true true true true true true.     (* the tree as pinned *)
+Definition cfg_fixed : cfg := mkCfg false false false false false false false false.
+Definition cfg_pinned : cfg := mkCfg true true true true true true true true.     (* the tree as pinned *)
 
 (** * environment: address encodings and hash functions *)
 Record env := mkEnv {
@@ -268,10 +270,23 @@ Definition do_getst (m : st) (a : N) (k : bytes) : st * sout :=
   let '(m1, o) := get_obj m a in
   let '(o1, v) := obj_get_state m1 a o k in (put_obj m1 a o1, SGet (negb (is_nil v)) v).
 
-(** SimpleLedger.GetCommittedState as coded: the zero hash for an empty account and for any
-    non-nil committed value (the interface holding the loaded origin is never nil), else nil *)
-Definition do_getcommitted (m : st) (a : N) (k : bytes) : st * sout :=
+(** SimpleAccount.GetCommittedState (repaired): the origin value (loaded on first use), the zero
+    hash when there is none *)
+Definition obj_get_origin (m : st) (a : N) (o : obj) (k : bytes) : obj * val :=
+  match kget k (o_ost o) with
+  | Some v => (o, v)
+  | None => let v := cached_state m a k in (set_ost o (kput k v (o_ost o)), v)
+  end.
+Definition committed_out (v : val) : val := if is_nil v then Some zero32 else v.
+
+(** SimpleLedger.GetCommittedState; with [d_getcommitted] as it was coded: the zero hash for an
+    empty account and for any non-nil committed value (the interface holding the loaded origin is
+    never nil), else nil *)
+Definition do_getcommitted (c : cfg) (m : st) (a : N) (k : bytes) : st * sout :=
   let '(m1, o) := get_obj m a in
+  if negb (d_getcommitted c) then
+    let '(o1, v) := obj_get_origin m1 a o k in (put_obj m1 a o1, SVal (committed_out v))
+  else
   (* IsEmpty short-circuits: Code() (which may lazily load) runs only for balance = nonce = 0 *)
   let zero := (obj_bal o =? 0)%Z && (obj_nonce o =? 0) in
   let '(o1, code) := if zero then obj_code m1 a o else (o, None) in
@@ -305,7 +320,8 @@ Definition do_setcode (e : env) (c : cfg) (m : st) (a : N) (code : val) : st :=
   let '(m1, o) := get_obj m a in
   let '(o1, prev) := obj_code m1 a o in
   let m2 := chg_append c m1 o1 (ChCode a prev) in
-  put_obj m2 a (obj_set_code e o1 code).
+  (* repaired: an explicitly set nil code is kept as the empty, non-nil code *)
+  put_obj m2 a (obj_set_code e o1 (if d_setcode_nil c then code else Some (nb code))).
 Definition do_setst (c : cfg) (m : st) (a : N) (k : bytes) (v : val) : st :=
   let '(m1, o) := get_obj m a in
   let '(o1, prev) := obj_get_state m1 a o k in
@@ -654,7 +670,7 @@ Definition step (e : env) (c : cfg) (m : st) (o : op) : st * out :=
   | GetNonce a => let '(m1, s) := do_getnonce m a in (m1, OS s)
   | GetCode a => let '(m1, s) := do_getcode m a in (m1, OS s)
   | GetSt a k => let '(m1, s) := do_getst m a k in (m1, OS s)
-  | GetCommitted a k => let '(m1, s) := do_getcommitted m a k in (m1, OS s)
+  | GetCommitted a k => let '(m1, s) := do_getcommitted c m a k in (m1, OS s)
   | Query a p => do_query e c m a p
   | SetBal a z => (do_setbal c m a z, ONone)
   | AddBal a z => (do_addbal c m a z, ONone)
